@@ -1187,3 +1187,11 @@ pub fn gen_deep() -> Vec<String> {
     }
     out
 }
+
+/// COVER: corpus programs (of the generated families, seed 1) that reach regions of opt.rs, bc.rs,
+/// ir.rs and the JIT's code generator which the first ~90 programs of every family do not reach
+/// (found once with a coverage-instrumented build, `tools/cover_order.py`); listed explicitly so that
+/// the quick tier's time box always includes them.
+pub fn cover_programs() -> Vec<String> {
+    include_str!("cover_programs.txt").lines().filter(|l| !l.trim().is_empty()).map(|l| l.to_string()).collect()
+}
